@@ -755,6 +755,13 @@ impl Indexable for ast::FieldLet {
         record.add_record_field(name.clone(), new_field_id);
         ctx.symbol_map.add_reference(field_id, reference_loc);
 
+        // `let f{3-0} = v;` sets the selected bits only
+        let field_typ = match self.range_list() {
+            Some(range_list) => {
+                utils::range_list_width(&range_list).map_or(Type::Unknown, utils::bits_typ)
+            }
+            None => field_typ,
+        };
         let value_typ = self.value()?.index(ctx)?;
         if !value_typ.can_be_casted_to(&ctx.symbol_map, &field_typ) {
             ctx.error(
